@@ -69,6 +69,7 @@ class Op:
         self.data = None
         self.exc = None
         self.skipped_probes = 0
+        self.implicit = False
 
 
 class C15(World):
@@ -236,15 +237,29 @@ class C15(World):
         skipped0 = self.probes_skipped
         op.t_invoke = sim.log(f"{op.id} invoke request_profile {ident.key} {label} {over if over else ''}")
         try:
-            out = client.request_profile(**over)
-            op.data = out.read()
-            op.ok = True
+            if label.startswith("implicit"):
+                # the profile machinery as other requests use it: a statement / account-info request first looks
+                # the service URL up in the (cached or refreshed) profile
+                from ofxtools.Client import StmtRq
+                op.implicit = True
+                if label.endswith("accounts"):
+                    out = client.request_accounts(ident.password, datetime.datetime(2020, 1, 1, tzinfo=UTC))
+                else:
+                    out = client.request_statements(ident.password, StmtRq(acctid="1", accttype="CHECKING"))
+                out.read()
+                op.data = None
+                # what matters here is the profile step: did it go through?
+                op.ok = True
+            else:
+                out = client.request_profile(**over)
+                op.data = out.read()
+                op.ok = True
         except (sched.Deadlock, sched.StepCap):
             raise
         except Exception as e:         # noqa - a failing call is a legal outcome
             op.ok = False
             op.exc = clean_exc(e, 100)
-        op.t_return = sim.log(f"{op.id} return " + ("ok %d bytes" % len(op.data) if op.ok else "raised " + op.exc))
+        op.t_return = sim.log(f"{op.id} return " + (("ok %d bytes" % len(op.data) if op.data is not None else "ok") if op.ok else "raised " + op.exc))
         op.skipped_probes = self.probes_skipped - skipped0
         if not sim.is_task():
             self.net.current_op = None
@@ -292,7 +307,7 @@ class C15(World):
                              f"{op.id}: PROFRQ carried DTPROFUP={s.dtprofup} but the cache held {[state_str(x) for x in sts]}",
                              identity=ident.key)
         # J2 ----------------------------------------------------------------------------
-        if op.ok:
+        if op.ok and not op.implicit:
             doc = self.read_profile_doc(op.data)
             if doc[0] == "bad":
                 self.violate("C15", "J2-returned-not-whole", "returned",
@@ -334,7 +349,9 @@ class C15(World):
                                      identity=ident.key)
                 op.ret_date = date
         # J3 ----------------------------------------------------------------------------
-        if op.ok is False and not overlapping and exact:
+        profile_step_failed = op.ok is False and not (op.implicit and any(
+            s.conn.delivered and s.sent_status in (0, 1) for f, s in seen if f is fi))
+        if profile_step_failed and not overlapping and exact:
             for id2 in self.uidents:
                 b = self.states_between(id2.key, op.t_invoke, op.t_invoke)
                 a = self.states_between(id2.key, op.t_return, op.t_return)
@@ -495,6 +512,9 @@ class C15(World):
                     st = self.probe_all("after restart", charge=False)
                     self.check_states(st, "after-real-crash", f"after the process was killed {self.crashed}")
                     continue
+            elif ch.flag("op.implicit", 0.2):
+                op = self.do_call(clients[slot.n], slot, ["implicit statements", "implicit accounts"][ch.pick("op.implicit.kind", 2)], {})
+                sim.count("probe.implicit_profile_lookups")
             else:
                 op = self.do_call(clients[slot.n], slot, "seq", over)
             self.probe_all("after " + op.id, charge=False)
